@@ -652,6 +652,10 @@ class DocutilsRenderer(RendererProtocol):
                 )
                 lex_tokens = Lexer(text, lexer_name or "", "none")
 
+            if lex_tokens.lexer is not None:
+                # by default pygments strips leading and trailing blank lines
+                lex_tokens.lexer.stripnl = False
+
             if number_lines:
                 lex_tokens = NumberLines(
                     lex_tokens, lineno_start, lineno_start + len(text.splitlines())
